@@ -65,6 +65,21 @@ def cases(ctx):
         c = case(len(out) + 1, [("e.yaml", cfg("CN=root with its own %s key" % k))], tag={"prop": "C05", "ent": "e", "class": "own key %s, nothing configured" % k, "key": "", "sig": "", "ownKey": k})
         c["files"].append({"path": "e.pem", "make": {"kind": "key", "key": k, "variant": ""}})
         out.append(c)
+    # the large RSA sizes without the cost of generating such a key: the entity has a stored key of that size (fixtures/rsa*.pem, made once
+    # with openssl) and names it as keyAlgorithm; every signature setting - the default above all - must come out as for any other RSA key.
+    # As root, as issuer of a subordinate that omits the algorithm, and as subordinate of an EC issuer (the default then does not fit).
+    import os
+    fx = os.path.join(os.path.dirname(os.path.dirname(os.path.abspath(__file__))), "fixtures")
+    for k, f in (("RSA-8192", "rsa8192.pem"), ("RSA-4096", "rsa4096.pem")):
+        pem = open(os.path.join(fx, f)).read()
+        for s in [None] + (RSA_SIGS[1:3] if ctx.quick else RSA_SIGS):
+            add([("e.yaml", cfg("CN=root with a stored %s key" % k, keyAlgorithm=k, signatureAlgorithm=s)), ("e.pem", pem)], k, s, "root, stored key")
+        add([("ca.yaml", cfg("CN=issuer with a stored %s key" % k, keyAlgorithm=k)), ("ca.pem", pem),
+             ("sub/e.yaml", cfg("CN=sub", issuer="ca", keyAlgorithm="RSA-1024"))], "RSA-1024", None, "sub under stored " + k)
+        add([("ca.yaml", cfg("CN=issuer", keyAlgorithm="P-256")), ("sub/e.yaml", cfg("CN=sub with a stored %s key" % k, issuer="ca", keyAlgorithm=k, signatureAlgorithm="ECDSAwithSHA384")),
+             ("sub/e.pem", pem)], k, "ECDSAwithSHA384", "stored key under P-256")
+        add([("ca.yaml", cfg("CN=issuer", keyAlgorithm="P-256")), ("sub/e.yaml", cfg("CN=sub with a stored %s key" % k, issuer="ca", keyAlgorithm=k)),
+             ("sub/e.pem", pem)], k, None, "stored key under P-256 (default scheme does not fit)", misfit=True)
     return out
 
 
